@@ -1,51 +1,102 @@
 #!/usr/bin/env python3
-"""mutation smoke tests for C03 / C18 against a scratch copy of the repository"""
+"""mutation smoke tests for C03 / C18 against a scratch copy of the repository
+(/repo itself is never edited: the copy lives in /tmp and is handed to ./check via VERIF_REPO)
+
+usage: c03_c18_mutate.py [name-prefix ...]      e.g.  c03_c18_mutate.py A1 A2
+"""
 import subprocess, sys, shutil, os, json
 MUT="/tmp/c03_mut"
+# (property, name, [(path, old, new), ...])
 M=[
- ("C18","M1 is_writable ignores pIsLocked","genapi/src/node_base.rs",
-  "            && !self.is_locked(device, store, cx)?\n","            && (self.is_locked(device, store, cx)? || true)\n"),
- ("C18","M2 RegisterBase::is_readable ignores AccessMode WO","genapi/src/register_base.rs",
-  "            && !matches!(self.access_mode(), AccessMode::WO))","            && (!matches!(self.access_mode(), AccessMode::WO) || true))"),
- ("C18","M3 PValue::is_writable ignores pValueCopy targets","genapi/src/ivalue.rs",
-  "            b &= nid.is_writable(device, store, cx)?;","            b &= nid.is_writable(device, store, cx)? || true;"),
- ("C18","M4 integer controller read as != 0 instead of == 1","genapi/src/utils.rs",
-  "        Ok(node.value(device, store, cx)? == 1)","        Ok(node.value(device, store, cx)? != 0)"),
- ("C18","M5 imposed access mode WO still readable","genapi/src/node_base.rs",
-  "            && matches!(self.imposed_access_mode, AccessMode::RO | AccessMode::RW))","            && matches!(self.imposed_access_mode, AccessMode::RO | AccessMode::RW | AccessMode::WO))"),
- ("C03","M6 pIndex picks the last matching entry","genapi/src/ivalue.rs",
+ ("C18","M1 is_writable ignores pIsLocked",[("genapi/src/node_base.rs",
+  "            && !self.is_locked(device, store, cx)?\n","            && (self.is_locked(device, store, cx)? || true)\n")]),
+ ("C18","M2 RegisterBase::is_readable ignores AccessMode WO",[("genapi/src/register_base.rs",
+  "            && !matches!(self.access_mode(), AccessMode::WO))","            && (!matches!(self.access_mode(), AccessMode::WO) || true))")]),
+ ("C18","M3 PValue::is_writable ignores pValueCopy targets",[("genapi/src/ivalue.rs",
+  "            b &= nid.is_writable(device, store, cx)?;","            b &= nid.is_writable(device, store, cx)? || true;")]),
+ ("C18","M4 integer controller read as == 1 instead of != 0 (reverts fix F-C18-3)",[("genapi/src/utils.rs",
+  "        Ok(node.value(device, store, cx)? != 0)","        Ok(node.value(device, store, cx)? == 1)")]),
+ ("C18","M5 imposed access mode WO still readable",[("genapi/src/node_base.rs",
+  "            && matches!(self.imposed_access_mode, AccessMode::RO | AccessMode::RW))","            && matches!(self.imposed_access_mode, AccessMode::RO | AccessMode::RW | AccessMode::WO))")]),
+ ("C03","M6 pIndex picks the last matching entry",[("genapi/src/ivalue.rs",
   "        if let Some(value_indexed) = self.value_indexed.iter().find(|vi| vi.index == index) {\n            value_indexed.indexed.value(device, store, cx)",
-  "        if let Some(value_indexed) = self.value_indexed.iter().rev().find(|vi| vi.index == index) {\n            value_indexed.indexed.value(device, store, cx)"),
- ("C03","M7 pValueCopy skipped on write","genapi/src/ivalue.rs",
-  "        for nid in self.p_value_copies() {\n            nid.set_value(value, device, store, cx)?;\n        }","        for nid in self.p_value_copies().iter().skip(1) {\n            nid.set_value(value, device, store, cx)?;\n        }"),
- ("C03","M8 pIndex Offset added instead of multiplied","genapi/src/elem_type.rs",
-  "            Ok(base * offset)","            Ok(base + offset)"),
- ("C03","M9 enumeration accepts undeclared values","genapi/src/enumeration.rs",
-  "            .any(|ent| ent.value() == value)","            .any(|ent| ent.value() == value || true)"),
- ("C03","M10 Boolean::set_value swaps On/Off","genapi/src/boolean.rs",
-  "        let value = if value { self.on_value } else { self.off_value };","        let value = if value { self.off_value } else { self.on_value };"),
- ("C03","M11 command is_done inverted comparison","genapi/src/command.rs",
-  "            Ok(command_value != reg_value)","            Ok(command_value == reg_value)"),
- ("C18","M12 revert fix F-C18-1 (SwissKnife::is_readable ignores variables)","genapi/src/swiss_knife.rs",
-  "        Ok(self.elem_base.is_readable(device, store, cx)?\n            && collector.is_readable(device, store, cx)?)","        let _ = &collector;\n        self.elem_base.is_readable(device, store, cx)"),
- ("C18","M13 revert fix F-C18-2 (enumeration target unwritable)","genapi/src/ivalue.rs",
-  "        } else if let Some(e) = self.as_ienumeration_kind(store) {\n            e.is_writable(device, store, cx)\n","        } else if let Some(_e) = self.as_ienumeration_kind(store) {\n            Ok(false)\n"),
+  "        if let Some(value_indexed) = self.value_indexed.iter().rev().find(|vi| vi.index == index) {\n            value_indexed.indexed.value(device, store, cx)")]),
+ ("C03","M7 pValueCopy skipped on write",[("genapi/src/ivalue.rs",
+  "        for nid in self.p_value_copies() {\n            nid.set_value(value, device, store, cx)?;\n        }","        for nid in self.p_value_copies().iter().skip(1) {\n            nid.set_value(value, device, store, cx)?;\n        }")]),
+ ("C03","M8 pIndex Offset added instead of multiplied",[("genapi/src/elem_type.rs",
+  "            Ok(base * offset)","            Ok(base + offset)")]),
+ ("C03","M9 enumeration accepts undeclared values",[("genapi/src/enumeration.rs",
+  "            .any(|ent| ent.value() == value)","            .any(|ent| ent.value() == value || true)")]),
+ ("C03","M10 Boolean::set_value swaps On/Off",[("genapi/src/boolean.rs",
+  "        let value = if value { self.on_value } else { self.off_value };","        let value = if value { self.off_value } else { self.on_value };")]),
+ ("C03","M11 command is_done inverted comparison",[("genapi/src/command.rs",
+  "            Ok(command_value != reg_value)","            Ok(command_value == reg_value)")]),
+ ("C18","M12 revert fix F-C18-1 (SwissKnife::is_readable ignores variables)",[("genapi/src/swiss_knife.rs",
+  "        Ok(self.elem_base.is_readable(device, store, cx)?\n            && collector.is_readable(device, store, cx)?)","        let _ = &collector;\n        self.elem_base.is_readable(device, store, cx)")]),
+ ("C18","M13 revert fix F-C18-2 (enumeration target unwritable)",[("genapi/src/ivalue.rs",
+  "        } else if let Some(e) = self.as_ienumeration_kind(store) {\n            e.is_writable(device, store, cx)\n","        } else if let Some(_e) = self.as_ienumeration_kind(store) {\n            Ok(false)\n")]),
+ # ---- the round-1 auditors' survivors / weakly caught mutants ----
+ ("C03","A1 stale pLength: a register's pLength value is memoised at its first evaluation",[
+  ("genapi/src/register_base.rs",
+   "        self.length_elem().value(device, store, cx)\n    }",
+   "        let key = &self.length as *const _ as usize;\n"
+   "        if let ImmOrPNode::PNode(_) = self.length_elem() {\n"
+   "            if let Some(v) = LEN_MEMO.with(|m| m.borrow().get(&key).copied()) {\n"
+   "                return Ok(v);\n"
+   "            }\n"
+   "        }\n"
+   "        let v = self.length_elem().value(device, store, cx)?;\n"
+   "        LEN_MEMO.with(|m| m.borrow_mut().insert(key, v));\n"
+   "        Ok(v)\n    }"),
+  ("genapi/src/register_base.rs",
+   "#[derive(Debug, Clone)]\npub struct RegisterBase {",
+   "thread_local! { pub(crate) static LEN_MEMO: std::cell::RefCell<std::collections::HashMap<usize, i64>> = std::cell::RefCell::new(std::collections::HashMap::new()); }\n\n#[derive(Debug, Clone)]\npub struct RegisterBase {"),
+  ("genapi/src/builder.rs",
+   "        let reg_desc = parser::parse(\n",
+   "        crate::register_base::LEN_MEMO.with(|m| m.borrow_mut().clear());\n        let reg_desc = parser::parse(\n")]),
+ ("C03","A2 formula environment: expressions collected before constants (shadowing order swapped)",[("genapi/src/utils.rs",
+  "        // Collect constatns.\n        for constant in self.constants {\n            let name = constant.name();\n            let value: Expr = (constant.value()).into();\n            self.var_env.insert(name, Cow::Owned(value));\n        }\n\n        // Collect expressions.\n        for expr in self.expressions {\n            let name = expr.name();\n            let value = expr.value_ref();\n            self.var_env.insert(name, Cow::Borrowed(value));\n        }\n",
+  "        // Collect expressions.\n        for expr in self.expressions {\n            let name = expr.name();\n            let value = expr.value_ref();\n            self.var_env.insert(name, Cow::Borrowed(value));\n        }\n\n        // Collect constatns.\n        for constant in self.constants {\n            let name = constant.name();\n            let value: Expr = (constant.value()).into();\n            self.var_env.insert(name, Cow::Owned(value));\n        }\n")]),
+ ("C03","A2b formula environment: variables collected last (variables shadow constants / expressions)",[("genapi/src/utils.rs",
+  "        // Collect variables.\n        self.collect_variables(device, store, cx)?;\n\n        // Collect constatns.",
+  "        // Collect constatns."),
+  ("genapi/src/utils.rs",
+  "            self.var_env.insert(name, Cow::Borrowed(value));\n        }\n\n        Ok(self.var_env)",
+  "            self.var_env.insert(name, Cow::Borrowed(value));\n        }\n        self.collect_variables(device, store, cx)?;\n\n        Ok(self.var_env)")]),
+ ("C03","C2 .Enum.<entry> accessor yields NumericValue instead of Value",[("genapi/src/utils.rs",
+  "                        .map(|nid| nid.expect_enum_entry(store).unwrap())?\n                        .value()\n                        .into()",
+  "                        .map(|nid| nid.expect_enum_entry(store).unwrap())?\n                        .numeric_value()\n                        .into()")]),
+ ("C03","C1 IntReg::set_value of a value whose image looks like a NaN stores another NaN-like image",[("genapi/src/int_reg.rs",
+  "        let mut buf = vec![0; len as usize];\n        utils::bytes_from_int(value, &mut buf, self.endianness, self.sign)?;\n        reg.write_and_cache(nid, &buf, device, store, cx)?;",
+  "        let mut buf = vec![0; len as usize];\n        let value = if (value as u64) >> 52 == 0xFFF { value ^ 1 } else { value };\n        utils::bytes_from_int(value, &mut buf, self.endianness, self.sign)?;\n        reg.write_and_cache(nid, &buf, device, store, cx)?;")]),
+ ("C18","B3 cache only: a port write no longer invalidates the caches that declare the port as pInvalidator",[("genapi/src/port.rs",
+  "        cx.invalidate_cache_by(self.node_base().id());\n","")]),
 ]
 os.makedirs(MUT,exist_ok=True)
 subprocess.run(["rsync","-a","--delete","--exclude","target","--exclude",".git","/repo/",MUT+"/"],check=True)
-only=sys.argv[1:] 
+only=sys.argv[1:]
 res=[]
-for (prop,name,path,old,new) in M:
+for (prop,name,edits) in M:
     if only and not any(name.startswith(o) for o in only): continue
-    src=os.path.join("/repo",path); dst=os.path.join(MUT,path)
-    s=open(src).read()
-    assert s.count(old)>=1, (name,"pattern not found")
-    open(dst,"w").write(s.replace(old,new,1))
+    touched=set()
+    for (path,old,new) in edits:
+        dst=os.path.join(MUT,path)
+        s=open(dst).read()
+        assert s.count(old)>=1, (name,"pattern not found",path,old[:60])
+        open(dst,"w").write(s.replace(old,new,1))
+        touched.add(path)
     env=dict(os.environ, VERIF_REPO=MUT)
     p=subprocess.run(["./check",prop],cwd="/verif",env=env,stdout=subprocess.PIPE,stderr=subprocess.STDOUT,text=True)
-    last=[l for l in p.stdout.splitlines() if l.startswith("[")][-1:] 
+    last=[l for l in p.stdout.splitlines() if l.startswith("[")][-1:]
     viol=[l for l in p.stdout.splitlines() if l.startswith("VIOLATION")]
-    res.append((prop,name,p.returncode,last,viol[:2]))
-    print(prop,name,"rc=",p.returncode,last,viol[:1],flush=True)
-    shutil.copy(src,dst)
-json.dump(res,open("/verif/work/C03/mutation_results.json","w"),indent=1)
+    res.append({"property":prop,"mutant":name,"rc":p.returncode,"summary":last,"violations":viol[:2]})
+    print(prop,name,"rc=",p.returncode,last,[v[:200] for v in viol[:1]],flush=True)
+    for path in touched:
+        shutil.copy(os.path.join("/repo",path),os.path.join(MUT,path))
+os.makedirs("/verif/work/C03",exist_ok=True)
+out="/verif/work/C03/mutation_results.json"
+prev=[]
+if only and os.path.exists(out):
+    try: prev=[r for r in json.load(open(out)) if isinstance(r,dict) and r.get("mutant") not in {x["mutant"] for x in res}]
+    except Exception: prev=[]
+json.dump(prev+res,open(out,"w"),indent=1)
